@@ -96,7 +96,7 @@ def run(tier, seed, procs):
     tasks = [(MOD, m, pl, K, pos, refs) for m in range(0, M + 1)
              for pl in ('none', 'mixed') for pos in (0, 1)]
     cols += drive.pool_map(drive.shard_enum_item, tasks, procs)
-    kw = dict(kinds=[k for k in build.ALL_KINDS], faults='heavy', rich=True, degenerate=True,
+    kw = dict(allow_no_slug=True, kinds=[k for k in build.ALL_KINDS], faults='heavy', rich=True, degenerate=True,
               min_stories=1)
     shards, per = (8, 500) if quick else (16, 15000)
     cols += drive.pool_map(drive.shard_hyp_steps,
